@@ -291,6 +291,11 @@ class Rig:
             self.protocol.resume_writing()
         elif kind == "deliver":
             self.deliver(ev["frame"], "scripted")
+        elif kind == "cancel_caller":  # the application gives up on a call (its own wait_for(), a shutdown)
+            tasks = getattr(self, "tasks", [])
+            if ev["target"] < len(tasks) and not tasks[ev["target"]].done():
+                self.log("cancel", caller=ev["target"])
+                tasks[ev["target"]].cancel()
 
     # -- client side ----------------------------------------------------------------
     async def caller(self, n: int, c: dict[str, Any]) -> None:
@@ -311,7 +316,13 @@ class Rig:
             # a transport event in the very loop iteration of the call: queued now, it runs after send_cmd() has
             # put the command in the buffer and before the buffer check that send_cmd() schedules
             if tev.get("with_call") == n:
-                self.loop.call_soon(self._do_event, tev)
+                if tev.get("after_check"):
+                    # ... or one iteration later, behind that buffer check: queued here it runs after the check has
+                    # moved the sender to WantEcho and before the deferred half of that transition (timer, write) runs -
+                    # where a serial read that became ready during the check's iteration lands
+                    self.loop.call_soon(lambda tev=tev: self.loop.call_soon(self._do_event, tev))
+                else:
+                    self.loop.call_soon(self._do_event, tev)
         try:
             pkt = await self.protocol.send_cmd(cmd, priority=Priority(c.get("priority", 0)), qos=qos)
         except asyncio.CancelledError:
@@ -335,6 +346,7 @@ async def _episode(loop: vloop.VirtualLoop, ep: dict[str, Any]) -> dict[str, Any
             if "at" in ev:
                 rig._at(ev["at"], rig._do_event, ev)
         tasks = [loop.create_task(rig.caller(n, c), name=f"caller-{n}") for n, c in enumerate(ep["callers"])]
+        rig.tasks = tasks  # type: ignore[attr-defined]
         horizon = ep.get("horizon", 60.0)
         done, pending = await asyncio.wait(tasks, timeout=horizon)
         open_calls = len(pending)
@@ -753,7 +765,7 @@ def gen_multi(rng, max_callers: int = 4) -> dict[str, Any]:
 def gen_faulty(rng) -> dict[str, Any]:
     """Multi-caller episode with transport events: disconnects in every state, write failures, pauses."""
     ep = gen_multi(rng, 3)
-    kind = rng.choice(("fail_write", "disconnect_at", "disconnect_after_write", "disc_reconnect", "pause", "late_packets", "event_with_call"))
+    kind = rng.choice(("fail_write", "disconnect_at", "disconnect_after_write", "disc_reconnect", "pause", "late_packets", "event_with_call", "caller_cancel"))
     if kind == "fail_write":
         ep["fail_writes"] = sorted({rng.randint(1, 5) for _ in range(rng.randint(1, 2))})
     elif kind == "disconnect_at":
@@ -764,8 +776,30 @@ def gen_faulty(rng) -> dict[str, Any]:
         # a transport event in the loop iteration of a call: after the command was queued, before the buffer check
         n = rng.randrange(len(ep["callers"]))
         ep["events"] = [{"with_call": n, "do": rng.choice(("disconnect", "disconnect_err", "disconnect_serial", "pause"))}]
+        if rng.random() < 0.5:
+            # a packet read in the iteration of the buffer check: the late echo / reply of an earlier, identical
+            # command (or a near miss of it) reaches the sender between the check and the check's deferred half
+            c = ep["callers"][n]
+            fr = caller_frames(c)
+            pool = [fr["echo"], fr["echo"], fr["reply"] or fr["echo"], *near_miss_frames(c, {x["idx"] for x in ep["callers"]})[:1]]
+            ep["events"] = [{"with_call": n, "after_check": True, "do": "deliver", "frame": rng.choice(pool)}]
+            if rng.random() < 0.5:
+                c["wait_for_reply"] = True
+        elif rng.random() < 0.3:
+            ep["events"][0]["after_check"] = True
         if rng.random() < 0.4:
             ep["events"].append({"at": ep["callers"][n].get("at", 0.0) + rng.choice((0.0, 0.001, 0.3, 2.0)), "do": rng.choice(("reconnect", "resume"))})
+    elif kind == "caller_cancel":
+        # an application that gives up on a call: at a chosen moment of the call's life, or in the very iteration
+        # in which another caller makes its call (between the two buffer checks those calls schedule)
+        n = rng.randrange(len(ep["callers"]))
+        c = ep["callers"][n]
+        if len(ep["callers"]) > 1 and rng.random() < 0.5:
+            m = rng.choice([i for i in range(len(ep["callers"])) if i != n])
+            ep["callers"][m]["at"] = c.get("at", 0.0) + rng.choice((0.0, 0.0, 0.001, 0.004, 0.5))
+            ep["events"] = [{"with_call": m, "after_check": rng.random() < 0.4, "do": "cancel_caller", "target": n}]
+        else:
+            ep["events"] = [{"at": c.get("at", 0.0) + rng.choice((0.0, 0.001, 0.004, 0.005, 0.02, 0.3, 0.5, 0.5 + EPS, 1.0, 1.5)), "do": "cancel_caller", "target": n}]
     elif kind == "disc_reconnect":
         t = rng.choice((0.002, 0.3, 0.5, 1.0))
         ep["events"] = [{"at": t, "do": "disconnect"}, {"at": t + rng.choice((0.0, 0.001, 0.5, 3.0)), "do": "reconnect"}]
